@@ -2,6 +2,8 @@
 model's mark phase (JANET_RECURSION_GUARD and two tiny depth limits that force the spill/drain path) and sweep, and
 compares with the collector's mark bits and the block lists after the real sweep. -/
 import JanetModel.GC.Model
+import JanetModel.GC.Roots
+import JanetModel.GC.Weak
 open JanetModel.GC
 
 structure DS where
@@ -16,13 +18,20 @@ structure DS where
   bad : Nat := 0
   envBad : Nat := 0      -- environment modes that contradict the model's envModeAfterMark
   envSeen : Nat := 0
+  weakBefore : List (Nat × Nat × Nat × Nat × List String) := []   -- id, kind, count, deleted, slot tokens (before the sweep)
+  weakTables : Nat := 0
+  weakSlots : Nat := 0
+  weakDropped : Nat := 0
+  weakDiff : Nat := 0
+  weakFirst : String := ""
 
 def parseRef (s : String) : Val := match s.toNat? with | some n => .ref n | none => .imm
 
 def parseObj (kind : Nat) (toks : List String) : Obj :=
   let edges : List Edge := toks.filterMap fun t =>
-    if t.startsWith "v" then (t.drop 1).toString.toNat?.map (fun n => ⟨true, n⟩)
-    else if t.startsWith "p" then (t.drop 1).toString.toNat?.map (fun n => ⟨false, n⟩)
+    if t.startsWith "v" then (t.drop 1).toString.toNat?.map (fun n => ⟨true, n, false⟩)
+    else if t.startsWith "p" then (t.drop 1).toString.toNat?.map (fun n => ⟨false, n, false⟩)
+    else if t.startsWith "q" then (t.drop 1).toString.toNat?.map (fun n => ⟨false, n, JanetModel.Gen.GC.funcdefNestTakesLevel⟩)
     else none
   let slots : List (Val × Val) := toks.filterMap fun t =>
     if t.startsWith "s:" then
@@ -37,6 +46,37 @@ def parseObj (kind : Nat) (toks : List String) : Obj :=
   else if kind == memTableWeakV then Obj.table false true slots proto
   else if kind == memTableWeakKV then Obj.table true true slots proto
   else { kind, strong := edges }
+
+def parseSVal (t : String) : SVal :=
+  if t == "n" then .nil else if t == "f" then .fls else if t == "i" then .imm
+  else match t.toNat? with | some n => .ref n | none => .imm
+
+def showSVal : SVal → String
+  | .nil => "n" | .fls => "f" | .imm => "i" | .ref n => toString n
+
+/-- run the model's weak pass (GC/Weak.lean) on a block's slots as dumped BEFORE the real sweep, with the collector's mark
+bits, and compare with the same block as dumped AFTER the real sweep: slots, `count`, `deleted` -/
+def weakCompare (st : DS) (id count deleted : Nat) (slots : List String) : DS :=
+  match st.weakBefore.find? (fun w => w.1 == id) with
+  | none => { st with weakDiff := st.weakDiff + 1, weakFirst := if st.weakFirst == "" then s!"weak:{id}:no-before" else st.weakFirst }
+  | some (_, kind, c0, d0, toks0) =>
+    let m : Std.HashSet Nat := (List.range st.marked.size).foldl (fun s i => if st.marked.getD i false then s.insert i else s) ∅
+    let (toks1, c1, d1, dropped) :=
+      if kind == JanetModel.Gen.GC.memArrayWeak then
+        let items := toks0.map parseSVal
+        let r := sweepWeakArray m items
+        (r.map showSVal, c0, d0, ((items.zip r).filter (fun p => p.1 != p.2)).length)
+      else
+        let data : List KV := toks0.map fun t => match t.splitOn "|" with
+          | [k, v] => ⟨parseSVal k, parseSVal v⟩
+          | _ => ⟨.imm, .imm⟩
+        let t : WTable := { kind, data, count := c0, deleted := d0 }
+        let r := sweepWeakTable m t
+        (r.data.map (fun kv => showSVal kv.key ++ "|" ++ showSVal kv.value), r.count, r.deleted, d0 + (t.data.filter (dropSlot m kind)).length - d0)
+    let same := toks1 == slots && c1 == count && d1 == deleted
+    { st with weakTables := st.weakTables + 1, weakSlots := st.weakSlots + slots.length, weakDropped := st.weakDropped + dropped,
+              weakDiff := st.weakDiff + (if same then 0 else 1),
+              weakFirst := if !same && st.weakFirst == "" then s!"weak:{id}:kind{kind}:model-count{c1}/{d1}:impl-count{count}/{deleted}" else st.weakFirst }
 
 def check (st : DS) : String := Id.run do
   let objs := st.objs
@@ -79,17 +119,107 @@ def check (st : DS) : String := Id.run do
       | some o, some o' => cleared := cleared + (o.entries.length - o'.entries.length)
       | _, _ => pure ()
   let stuck := m.stuck || m1.stuck || m3.stuck || !m.spill.isEmpty
-  let ok := missing == 0 && extra == 0 && dep == 0 && sweepDiff == 0 && !stuck && st.bad == 0 && st.envBad == 0
-  return s!"result ok={if ok then 1 else 0} collection={st.coll} nodes={n} modelmarked={nm} missing={missing} extra={extra} depthdep={dep} sweepdiff={sweepDiff} modelfreed={freed} weakcleared={cleared} stuck={if stuck then 1 else 0} parsebad={st.bad} envmodes={st.envSeen} envbad={st.envBad} opaque={if st.opq then 1 else 0} first={if first == "" then "-" else first}"
+  if first == "" then first := st.weakFirst
+  let ok := missing == 0 && extra == 0 && dep == 0 && sweepDiff == 0 && !stuck && st.bad == 0 && st.envBad == 0 && st.weakDiff == 0
+  return s!"result ok={if ok then 1 else 0} collection={st.coll} nodes={n} modelmarked={nm} missing={missing} extra={extra} depthdep={dep} sweepdiff={sweepDiff} modelfreed={freed} weakcleared={cleared} stuck={if stuck then 1 else 0} parsebad={st.bad} envmodes={st.envSeen} envbad={st.envBad} opaque={if st.opq then 1 else 0} weaktables={st.weakTables} weakslots={st.weakSlots} weakdropped={st.weakDropped} weakdiff={st.weakDiff} first={if first == "" then "-" else first}"
 
-partial def loop (inp out : IO.FS.Stream) (st : DS) : IO Unit := do
+
+/-! ### op-history mode (harness/C01/roots.c): lines `m <op>` are replayed with the model's `stepOp`, `show` prints the
+model state in the harness's `st` format -/
+
+structure RS where
+  s : Heap × VM := (Heap.ofList [] [], {})
+  ret : Int := 0
+  bad : Nat := 0
+
+def kvNat (toks : List String) (key : String) : Option Nat :=
+  toks.findSome? fun t => if t.startsWith (key ++ "=") then (t.drop (key.length + 1)).toString.toNat? else none
+
+def parseRVal (t : String) : Option RVal :=
+  match t.splitOn ":" with
+  | [a, b] => match a.toNat?, b.toNat? with
+    | some ty, some p => some ⟨ty, p⟩
+    | _, _ => none
+  | _ => none
+
+def parseRoots (toks : List String) : List RVal :=
+  match toks.find? (·.startsWith "roots=") with
+  | some t => ((t.drop 6).toString.splitOn ",").filterMap parseRVal
+  | none => []
+
+def commaNats (l : List Nat) : String := ",".intercalate (l.map toString)
+
+def showRS (r : RS) : String :=
+  let vm := r.s.2
+  let h := r.s.1
+  let live := (List.range h.size).filter (fun i => (h.get i).isSome)
+  let roots := ",".intercalate (vm.roots.map fun v => s!"{v.ty}:{v.payload}")
+  s!"st ret={r.ret} rc={vm.roots.length} cap={vm.rootCap} susp={vm.gcSuspend} mp={if vm.markPhase then 1 else 0} next={vm.nextCollection} intv={vm.gcInterval} bc={vm.blockCount} ncoll={vm.collections} scr={commaNats vm.scratch} roots={roots} live={commaNats live}"
+
+/-- root_capacity after a collection that spilled: some iterate of c ↦ rootGrowMul * (c + 1) (growth happens exactly when
+the array is full) -/
+def capOrbit (c target : Nat) : Nat → Bool
+  | 0 => c == target
+  | fuel + 1 => c == target || (c < target && capOrbit (JanetModel.Gen.GC.rootGrowMul * (c + 1)) target fuel)
+
+/-- the same heap (extensionally: `get` agrees everywhere) with `obj` backed by an array instead of the chain of closures
+`heapAdd` builds — only so that the driver's lookups are O(1) -/
+def compact (h : Heap) : Heap :=
+  let arr : Array (Option Obj) := (Array.range h.size).map h.get
+  { h with obj := fun i => (arr[i]?).join }
+
+def rootsOp (r0 : RS) (toks : List String) : RS :=
+  let D := JanetModel.Gen.GC.recursionGuard
+  let heavy := match toks with | "collect" :: _ => true | "safepoint" :: _ => true | _ => r0.s.1.size % 64 == 63
+  let r : RS := if heavy then { r0 with s := (compact r0.s.1, r0.s.2) } else r0
+  let run (op : ROp) : RS := let x := stepOp D r.s op; { r with s := x.1, ret := x.2 }
+  let badr : RS := { r with bad := r.bad + 1 }
+  match toks with
+  | "sizeof" :: rest =>
+    if kvNat rest "gcobject" == some JanetModel.Gen.GC.gcObjectSize then r else badr
+  | "init" :: rest =>
+    let vm : VM := { roots := parseRoots rest, rootCap := (kvNat rest "cap").getD 0, gcSuspend := ((kvNat rest "susp").getD 0 : Nat),
+                     nextCollection := (kvNat rest "next").getD 0, gcInterval := (kvNat rest "intv").getD 0,
+                     blockCount := (kvNat rest "bc").getD 0 }
+    -- janet_init must leave the interval the translator extracted
+    if vm.gcInterval == JanetModel.Gen.GC.initialGcInterval then { r with s := (Heap.ofList [] [], vm) } else { badr with s := (Heap.ofList [] [], vm) }
+  | "new" :: "leaf" :: kind :: rest =>
+    { run (.newObj (Obj.leaf (kind.toNat?.getD 0)) ((kvNat rest "size").getD 0)) with ret := 0 }
+  | "new" :: "array" :: rest =>
+    let items : List Val := (rest.filter (fun t => !t.startsWith "size=")).map fun t => match t.toNat? with
+      | some k => Val.ref k
+      | none => Val.imm
+    { run (.newObj (Obj.array false items) ((kvNat rest "size").getD 0)) with ret := 0 }
+  | ["root", v] => match parseRVal v with | some x => run (.root x) | none => badr
+  | ["unroot", v] => match parseRVal v with | some x => run (.unroot x) | none => badr
+  | ["unrootall", v] => match parseRVal v with | some x => run (.unrootall x) | none => badr
+  | ["lock"] => run .lock
+  | ["unlock", hd] => match hd.toInt? with | some i => run (.unlock i) | none => badr
+  | ["pressure", n] => run (.pressure (n.toNat?.getD 0))
+  | ["setinterval", n] => run (.setInterval (n.toNat?.getD 0))
+  | ["collect"] => run .collect
+  | ["safepoint", f] => run (.safepoint (f == "1"))
+  | ["smalloc", id] => run (.smalloc (id.toNat?.getD 0))
+  | ["sfree", id] => run (.sfree (id.toNat?.getD 0))
+  | ["capgrew", a, b] =>
+    let a := a.toNat?.getD 0
+    let b := b.toNat?.getD 0
+    if r.s.2.rootCap == a && capOrbit a b 64 then { r with s := (r.s.1, { r.s.2 with rootCap := b }) } else badr
+  | ["nop", x] => { r with ret := x.toInt?.getD 0 }
+  | _ => badr
+
+partial def loop (inp out : IO.FS.Stream) (st : DS) (rs : RS := {}) : IO Unit := do
   let line ← inp.getLine
   if line.isEmpty then
     out.flush
     return ()
   let toks := (line.trimAscii.toString.splitOn " ").filter (· ≠ "")
   match toks with
-  | "heap" :: _ :: c :: _ => loop inp out { coll := c }
+  | "m" :: rest => loop inp out st (rootsOp rs rest)
+  | ["show"] =>
+    out.putStrLn (showRS rs ++ (if rs.bad == 0 then "" else s!" modelbad={rs.bad}"))
+    loop inp out st rs
+  | "heap" :: _ :: c :: _ => loop inp out { coll := c } rs
   | "o" :: id :: kind :: flags :: rest =>
     let k := kind.toNat?.getD 0
     let bad := if id.toNat? == some st.objs.size then st.bad else st.bad + 1
@@ -114,18 +244,22 @@ partial def loop (inp out : IO.FS.Stream) (st : DS) : IO Unit := do
       marked := st.marked.push (fl.contains 'm'),
       disabled := st.disabled.push (fl.contains 'd'),
       opq := st.opq || (fl.contains 'o' ),
-      bad := bad }
+      bad := bad } rs
   | "roots" :: rest =>
-    let rs : List Edge := rest.filterMap fun t =>
-      if t.startsWith "v" then (t.drop 1).toString.toNat?.map (fun n => ⟨true, n⟩)
-      else if t.startsWith "p" then (t.drop 1).toString.toNat?.map (fun n => ⟨false, n⟩)
+    let rts : List Edge := rest.filterMap fun t =>
+      if t.startsWith "v" then (t.drop 1).toString.toNat?.map (fun n => ⟨true, n, false⟩)
+      else if t.startsWith "p" then (t.drop 1).toString.toNat?.map (fun n => ⟨false, n, false⟩)
       else none
-    loop inp out { st with roots := rs }
-  | "after" :: rest => loop inp out { st with after := rest.filterMap (·.toNat?), hasAfter := !rest.isEmpty }
+    loop inp out { st with roots := rts } rs
+  | "w" :: id :: kind :: count :: deleted :: slots =>
+    loop inp out { st with weakBefore := (id.toNat?.getD 0, kind.toNat?.getD 0, count.toNat?.getD 0, deleted.toNat?.getD 0, slots) :: st.weakBefore } rs
+  | "wa" :: id :: _ :: count :: deleted :: slots =>
+    loop inp out (weakCompare st (id.toNat?.getD 0) (count.toNat?.getD 0) (deleted.toNat?.getD 0) slots) rs
+  | "after" :: rest => loop inp out { st with after := rest.filterMap (·.toNat?), hasAfter := !rest.isEmpty } rs
   | "check" :: _ =>
     out.putStrLn (check st)
-    loop inp out {}
-  | _ => loop inp out st
+    loop inp out {} rs
+  | _ => loop inp out st rs
 
 def main : IO Unit := do
   loop (← IO.getStdin) (← IO.getStdout) {}
